@@ -1009,31 +1009,9 @@ func (p *PikeVM) SearchWithCapturesAt(haystack []byte, at int) *MatchWithCapture
 		return nil
 	}
 
-	if at == len(haystack) {
-		// At end of input - check if empty string matches at this position.
-		// Must use matchesEmptyAt with full haystack context for correct
-		// look assertion evaluation (e.g., \B needs previous byte context).
-		if p.matchesEmptyAt(haystack, at) {
-			return &MatchWithCaptures{
-				Start:    at,
-				End:      at,
-				Captures: p.buildCapturesResult(nil, at, at),
-			}
-		}
-		return nil
-	}
-
-	if len(haystack) == 0 {
-		// Check if empty string matches (haystack is empty, pos=0)
-		if p.matchesEmptyAt(haystack, 0) {
-			return &MatchWithCaptures{
-				Start:    0,
-				End:      0,
-				Captures: p.buildCapturesResult(nil, 0, 0),
-			}
-		}
-		return nil
-	}
+	// No shortcut for at == len(haystack): an empty match at the end of the
+	// haystack still has capture positions (e.g. `(a*)+` on "" is [0 0 0 0]).
+	// The search loops below handle pos == len(haystack).
 
 	if p.nfa.IsAnchored() {
 		return p.searchAtWithCaptures(haystack, at)
@@ -2215,18 +2193,10 @@ func (p *PikeVM) SearchWithSlotTableCapturesAt(haystack []byte, at int) *MatchWi
 
 	numGroups := p.nfa.CaptureCount()
 
-	if at == len(haystack) {
-		if p.matchesEmptyAt(haystack, at) {
-			return p.buildCapturesFromSlots(nil, at, at)
-		}
-		return nil
-	}
-	if len(haystack) == 0 {
-		if p.matchesEmpty() {
-			return p.buildCapturesFromSlots(nil, 0, 0)
-		}
-		return nil
-	}
+	// No shortcut for at == len(haystack): an empty match at the end of the
+	// haystack still needs the capture positions (e.g. `(a*)+` on "" is
+	// [0 0 0 0]) and the look assertions (e.g. `(\b)` on "" must not match).
+	// The search loops below handle pos == len(haystack).
 	_ = numGroups
 
 	if p.nfa.IsAnchored() {
